@@ -125,6 +125,9 @@ func specOf(op *spb.AFTOperation) (drv.OpSpec, error) {
 		if p.GetMacAddress() != nil {
 			o.X = append(o.X, [2]uint64{2, key(drv.MACVals, p.GetMacAddress().GetValue())})
 		}
+		if p.GetPopTopLabel() != nil {
+			o.X = append(o.X, [2]uint64{3, map[bool]uint64{true: 1, false: 2}[p.GetPopTopLabel().GetValue()]})
+		}
 	default:
 		o.T = "none"
 	}
@@ -363,7 +366,16 @@ func runC15(args []string) error {
 	for i, c := range cases {
 		cr, err := runCase(c)
 		if err != nil {
-			return fmt.Errorf("case %d: %v", i, err)
+			// the two RIBs of a case are reference-closed by construction and installed dependencies first: an
+			// operation that is not acknowledged at once while they are built is a failure of the implementation
+			rep.Violations = append(rep.Violations, drv.Verdict{Case: i, Problem: "building a reference-closed RIB, dependencies first: " + err.Error()})
+			empty := CCase{Base: c.Base, Prof: c.Prof}
+			cr, err = runCase(empty) // keeps the model comparison aligned with cases.json
+			if err != nil {
+				return fmt.Errorf("case %d: %v", i, err)
+			}
+			coq = append(coq, cr.coq(empty))
+			continue
 		}
 		for _, p := range cr.problems {
 			rep.Violations = append(rep.Violations, drv.Verdict{Case: i, Problem: p})
